@@ -42,6 +42,7 @@ func (t *FnTrans) lookup(x *ssa.Lookup) {
 		return
 	}
 	dc, vc, _ := t.mapComps(mt)
+	t.checkGuardedMap(x.X, false)
 	m, k := t.term(x.X), t.term(x.Index)
 	has := and(not(eq(m, "0")), app("select", app("select", t.get(dc), m), k))
 	v := ite(has, app("select", app("select", t.get(vc), m), k), t.zero(mt.Elem()))
@@ -61,6 +62,7 @@ func (t *FnTrans) lookup(x *ssa.Lookup) {
 func (t *FnTrans) mapUpdate(x *ssa.MapUpdate) {
 	mt := t.resolve(x.Map.Type()).Underlying().(*types.Map)
 	dc, vc, lc := t.mapComps(mt)
+	t.checkGuardedMap(x.Map, true)
 	m, k, v := t.term(x.Map), t.term(x.Key), t.term(x.Value)
 	t.oblige("nilmap", not(eq(m, "0")), "assignment to entry in nil map")
 	d := t.get(dc)
@@ -75,6 +77,7 @@ func (t *FnTrans) mapUpdate(x *ssa.MapUpdate) {
 func (t *FnTrans) mapDelete(c *ssa.CallCommon) {
 	mt := t.resolve(c.Args[0].Type()).Underlying().(*types.Map)
 	dc, _, lc := t.mapComps(mt)
+	t.checkGuardedMap(c.Args[0], true)
 	m, k := t.term(c.Args[0]), t.term(c.Args[1])
 	d := t.get(dc)
 	had := and(not(eq(m, "0")), app("select", app("select", d, m), k))
@@ -133,6 +136,7 @@ func (t *FnTrans) rangeNext(x *ssa.Next) {
 		return
 	}
 	dc, vc, _ := t.mapComps(rs.mt)
+	t.checkGuardedMap(x.Iter.(*ssa.Range).X, false)
 	vis := t.get(rs.visited)
 	dom := app("select", t.get(dc), rs.m)
 	k := t.newConst(x.Name()+".k", t.sortOf(rs.mt.Key()))
@@ -477,8 +481,20 @@ func (t *FnTrans) noteVia(l *loopInfo, comp string, v ssa.Value) {
 		return
 	}
 	if in, ok := v.(ssa.Instruction); ok && in.Block() != nil && l.body[in.Block()] {
-		l.viaBad[comp] = true // defined inside the loop: not loop-invariant
-		return
+		// defined inside the loop: acceptable only as a re-load of a field of a loop-invariant object
+		// (checked again at the loop head: the field itself must not be written by the loop)
+		okReload := false
+		if u, isU := v.(*ssa.UnOp); isU {
+			if fa, isFA := u.X.(*ssa.FieldAddr); isFA {
+				if xin, isIn := fa.X.(ssa.Instruction); !isIn || xin.Block() == nil || !l.body[xin.Block()] {
+					okReload = true
+				}
+			}
+		}
+		if !okReload {
+			l.viaBad[comp] = true
+			return
+		}
 	}
 	for _, o := range l.via[comp] {
 		if o == v {
@@ -509,7 +525,28 @@ func (t *FnTrans) instrWrites(in ssa.Instruction, l *loopInfo) {
 			}
 		}
 	}
-	tmp := &loopInfo{writes: map[string]bool{}, via: map[string][]ssa.Value{}, viaBad: map[string]bool{}, body: l.body}
+	switch in.(type) {
+	case *ssa.Alloc, *ssa.MakeSlice, *ssa.MakeMap, *ssa.MakeInterface, *ssa.MakeClosure, *ssa.MakeChan, *ssa.Convert:
+		// these write only into the object they allocate, which did not exist before the loop
+		return
+	}
+	if st, ok := in.(*ssa.Store); ok {
+		// store into an array allocated inside the loop (e.g. the backing array of a variadic call)
+		if ia, ok := st.Addr.(*ssa.IndexAddr); ok {
+			if al, ok := ia.X.(*ssa.Alloc); ok && al.Block() != nil && l.body[al.Block()] {
+				return
+			}
+		}
+		if al, ok := st.Addr.(*ssa.Alloc); ok && al.Block() != nil && l.body[al.Block()] {
+			return
+		}
+	}
+	if sl, ok := in.(*ssa.Slice); ok {
+		if al, ok := sl.X.(*ssa.Alloc); ok && al.Block() != nil && l.body[al.Block()] {
+			return
+		}
+	}
+	tmp := &loopInfo{writes: map[string]bool{}, via: map[string][]ssa.Value{}, viaBad: map[string]bool{}, viaExpr: map[string][]viaExpr{}, body: l.body}
 	t.viaCalls, t.viaNoted = true, map[string]bool{}
 	t.instrWritesRaw(in, tmp)
 	t.viaCalls = false
@@ -519,6 +556,7 @@ func (t *FnTrans) instrWrites(in ssa.Instruction, l *loopInfo) {
 			for _, v := range tmp.via[c] {
 				t.noteVia(l, c, v)
 			}
+			l.viaExpr[c] = append(l.viaExpr[c], tmp.viaExpr[c]...)
 			continue
 		}
 		l.viaBad[c] = true
@@ -541,7 +579,15 @@ func (t *FnTrans) instrWritesRaw(in ssa.Instruction, l *loopInfo) {
 	case *ssa.MakeInterface, *ssa.MakeClosure, *ssa.MakeChan:
 		t.wAlloc(l)
 	case *ssa.MapUpdate:
-		t.wMap(l, t.resolve(x.Map.Type()).Underlying().(*types.Map))
+		mt := t.resolve(x.Map.Type()).Underlying().(*types.Map)
+		t.wMap(l, mt)
+		if t.viaCalls {
+			d, v, n := t.mapComps(mt)
+			for _, c := range []string{d, v, n} {
+				t.noteVia(l, c, x.Map)
+				t.viaNoted[c] = true
+			}
+		}
 	case *ssa.Slice:
 		if pt, ok := t.resolve(x.X.Type()).Underlying().(*types.Pointer); ok {
 			at := t.resolve(pt.Elem()).Underlying().(*types.Array)
@@ -582,11 +628,54 @@ func (t *FnTrans) callWrites(c *ssa.CallCommon, l *loopInfo) {
 		switch b.Name() {
 		case "append":
 			t.wAlloc(l)
-			t.wElem(l, t.resolve(c.Args[0].Type()).Underlying().(*types.Slice).Elem())
+			et := t.resolve(c.Args[0].Type()).Underlying().(*types.Slice).Elem()
+			t.wElem(l, et)
+			if t.viaCalls {
+				// append writes into the array of its first argument or into a fresh one. If that argument is
+				// a loop phi that is only ever re-assigned from appends to itself, the arrays written are the
+				// initial one and arrays allocated inside the loop.
+				comp := "E." + mangle(t.sortOf(et))
+				var bases []ssa.Value
+				ok := true
+				switch a := c.Args[0].(type) {
+				case *ssa.Phi:
+					for i, e := range a.Edges {
+						pred := a.Block().Preds[i]
+						if a.Block().Dominates(pred) { // back edge
+							call, isCall := e.(*ssa.Call)
+							if !isCall {
+								ok = false
+								break
+							}
+							if bi, isB := call.Call.Value.(*ssa.Builtin); !isB || bi.Name() != "append" || call.Call.Args[0] != a {
+								ok = false
+							}
+						} else {
+							bases = append(bases, e)
+						}
+					}
+				default:
+					bases = append(bases, c.Args[0])
+				}
+				if ok {
+					for _, b := range bases {
+						t.noteVia(l, comp, b)
+					}
+					t.viaNoted[comp] = true
+				}
+			}
 		case "copy":
 			t.wElem(l, t.resolve(c.Args[0].Type()).Underlying().(*types.Slice).Elem())
 		case "delete":
-			t.wMap(l, t.resolve(c.Args[0].Type()).Underlying().(*types.Map))
+			mt := t.resolve(c.Args[0].Type()).Underlying().(*types.Map)
+			t.wMap(l, mt)
+			if t.viaCalls {
+				d, v, n := t.mapComps(mt)
+				for _, cc := range []string{d, v, n} {
+					t.noteVia(l, cc, c.Args[0])
+					t.viaNoted[cc] = true
+				}
+			}
 		case "close":
 			t.w(l, "CH.closed", "(Array Int Bool)")
 		}
@@ -842,6 +931,17 @@ func (t *FnTrans) staticMod(x *Expr, ptypes map[string]types.Type, pkg *types.Pa
 			return false
 		}
 		t.wMap(l, mt)
+		if t.viaCalls && t.staticArgs != nil {
+			args := map[string]ssa.Value{}
+			for k, v := range t.staticArgs {
+				args[k] = v
+			}
+			d, v, n := t.mapComps(mt)
+			for _, c := range []string{d, v, n} {
+				l.viaExpr[c] = append(l.viaExpr[c], viaExpr{e: x.Args[0], args: args, ptypes: ptypes, pkg: pkg, kind: "map"})
+				t.viaNoted[c] = true
+			}
+		}
 		return true
 	case x.Op == "call" && x.Name == "ghost":
 		name := x.Args[0].Name
